@@ -767,10 +767,22 @@ fn lw_stream(out: &mut Out, id: &mut u64, rng: &mut Rng, thorough: bool) {
                 t,
             )
         };
-        let raw = build_request("GET", &target, &[("connection", "close")], b"");
+        // the protocol version of the request must not matter: every fifth request is made
+        // with an HTTP/1.0 request line, every fifth over HTTP/2
+        let proto = match i % 5 {
+            1 => "lw0",
+            3 => "lw2",
+            _ => "lw",
+        };
+        let mut raw = build_request("GET", &target, &[("connection", "close")], b"");
+        if proto == "lw0" {
+            let text = String::from_utf8_lossy(&raw).replacen(" HTTP/1.1\r\n", " HTTP/1.0\r\n", 1);
+            raw = text.into_bytes();
+        }
         let mut resp = None;
         for _ in 0..3 {
-            if let Some(r) = roundtrip(addr, &raw, false) {
+            let got = if proto == "lw2" { h2_roundtrip(addr, "GET", &target, &[], b"", true) } else { roundtrip(addr, &raw, false) };
+            if let Some(r) = got {
                 if r.well_formed {
                     resp = Some(r);
                     break;
@@ -780,7 +792,7 @@ fn lw_stream(out: &mut Out, id: &mut u64, rng: &mut Rng, thorough: bool) {
         }
         *id += 1;
         match resp {
-            None => out.line(&format!("lw {} {} => noresponse", id, line_in)),
+            None => out.line(&format!("{} {} {} => noresponse", proto, id, line_in)),
             Some(r) => {
                 let all = |n: &str| {
                     let v: Vec<String> = r.header_all(n).iter().map(|s| hex(s.as_bytes())).collect();
@@ -799,7 +811,8 @@ fn lw_stream(out: &mut Out, id: &mut u64, rng: &mut Rng, thorough: bool) {
                     }
                 };
                 out.line(&format!(
-                    "lw {} {} => {} {} {} {} {} {}",
+                    "{} {} {} => {} {} {} {} {} {}",
+                    proto,
                     id,
                     line_in,
                     r.status,
